@@ -2,18 +2,22 @@
 (* Enumerates histories: first-use orders of kernels, process boundaries with the
    cache on or off, cache wipes.  Emits every complete history as JSON.        *)
 EXTENDS AggJit, TLC, Json
-CONSTANTS Helpers, Kinds, MaxCalls, MaxProcs, Emit
+CONSTANTS Helpers, Kinds, MaxCalls, MaxProcs, Emit, TwoHelperCalls
 VARIABLES hist, jit, done
 Calls(h) == Cardinality({i \in DOMAIN h : h[i].t = "call"})
 Procs(h) == Cardinality({i \in DOMAIN h : h[i].t = "proc"})
 Init == hist = <<[t |-> "proc", cache |-> TRUE]>> /\ jit = InitJit /\ done = FALSE
 InitOff == hist = <<[t |-> "proc", cache |-> FALSE]>> /\ jit = [InitJit EXCEPT !.cacheOn = FALSE] /\ done = FALSE
+(* one aggregate() call with one helper, or with two helpers on the same column ("in the same call") *)
 Call == /\ ~done /\ Calls(hist) < MaxCalls
-        /\ \E h \in Helpers, k \in Kinds :
-              /\ Accepts(h, k)
-              /\ hist' = Append(hist, [t |-> "call", h |-> h, kind |-> k, status |-> Status(jit, h, k),
-                                      broken |-> Broken(jit, h, k)])
-              /\ jit' = AfterCall(jit, h, k)
+        /\ \E h \in Helpers, k \in Kinds, h2 \in Helpers \cup {""} :
+              /\ Accepts(h, k) /\ (h2 # "" => Accepts(h2, k) /\ h2 # h /\ TwoHelperCalls)
+              /\ LET j1 == AfterCall(jit, h, k) IN
+                 /\ hist' = Append(hist, [t |-> "call", h |-> h, kind |-> k, status |-> Status(jit, h, k),
+                                         broken |-> Broken(jit, h, k), h2 |-> h2,
+                                         status2 |-> IF h2 = "" THEN "" ELSE Status(j1, h2, k),
+                                         broken2 |-> IF h2 = "" THEN FALSE ELSE Broken(j1, h2, k)])
+                 /\ jit' = IF h2 = "" THEN j1 ELSE AfterCall(j1, h2, k)
         /\ done' = FALSE
 Proc == /\ ~done /\ Procs(hist) < MaxProcs /\ hist[Len(hist)].t = "call"
         /\ \E c \in BOOLEAN : hist' = Append(hist, [t |-> "proc", cache |-> c]) /\ jit' = NewProcess(jit, c)
@@ -26,7 +30,7 @@ Spec == (Init \/ InitOff) /\ [][Next]_<<hist, jit, done>>
 (* the predicted JIT state is a function of the history alone *)
 \* the damage model never predicts a broken call without an earlier max/min compile of that kind
 BrokenNeedsCause == \A i \in DOMAIN hist : (hist[i].t = "call" /\ hist[i].broken) =>
-                       \E p \in 1..(i-1) : hist[p].t = "call" /\ hist[p].h \in {"max", "min"}
+                       \E p \in 1..(i-1) : hist[p].t = "call" /\ (hist[p].h \in {"max", "min"} \/ hist[p].h2 \in {"max", "min"})
                                              /\ SpecOf(hist[p].h, hist[p].kind)[2] = SpecOf(hist[i].h, hist[i].kind)[2]
 Inv == BrokenNeedsCause /\ jit.mem \subseteq {SpecOf(h, k) : h \in Helpers, k \in Kinds}
        /\ (jit.cacheOn => jit.mem \subseteq jit.disk \/ TRUE)
